@@ -5,24 +5,37 @@ From Coq Require Import List Arith Bool.
 From Verif Require Import LazyModel LazyProofs LazyThreads LazyCheck LazyExamples.
 Import ListNotations.
 
-(* invariant "Compiled f => f = compile cls fmt dir dialect": every state reachable from the empty module by
-   class definitions in any order (eager / lazy / postponed) and calls is well formed *)
-Theorem C14_reachable_wf : forall F d5 fuel h st, wf st ->
-  wf (fold_left (fun s o => fst (LazyModel.step F d5 fuel s o)) h st).
-Proof. exact reachable_wf. Qed.
-Print Assumptions C14_reachable_wf.
+(* Invariant of every state reachable from the empty module by class definitions in any order (eager / lazy /
+   postponed) and public calls:  wf ("Compiled f => f = compile cls fmt dir dialect") AND complete (every compiled
+   body only calls nested methods that the nested class itself owns).  Domain: selfref_unspec F (a class with a
+   position of its own type is never specialised); public calls go to methods the class owns (ok_hist). *)
+Theorem C14_reachable_inv : forall F d5 fuel, selfref_unspec F -> forall h st, LazyProofs.inv F st -> ok_hist F d5 fuel st h ->
+  LazyProofs.inv F (fold_left (fun s o => fst (LazyModel.step F d5 fuel s o)) h st).
+Proof. exact reachable_inv. Qed.
+Print Assumptions C14_reachable_inv.
+
+(* with inheritance and run-time lookup through the MRO: in a reachable state a call on a class that owns the
+   method reaches THE code generated for (that class, method, dialect) - a subclass never silently runs the code
+   compiled for its parent *)
+Theorem C14_no_inherited_code : forall F d5 fuel, selfref_unspec F -> forall st c m d st' r,
+  LazyProofs.inv F st -> present st c m -> name_ok F c m ->
+  dispatch F d5 fuel st c m d = (st', r) ->
+  LazyProofs.inv F st' /\ mono st st' /\ (forall k, r = DRun k -> k = code_of c m d /\ stored st' c m d k).
+Proof. exact dispatch_inv. Qed.
+Print Assumptions C14_no_inherited_code.
 
 (* a call that answers, answers the state-independent meaning [den] of (class, method, dialect, input) *)
-Theorem C14_call_state_independent : forall F d5 fuel x st c m d st' o,
-  wf st -> call F d5 fuel x st c m d = (st', o) ->
-  wf st' /\ (forall t, o = Out t -> t = den F x c m d).
+Theorem C14_call_state_independent : forall F d5 fuel, selfref_unspec F -> forall x st c m d st' o,
+  LazyProofs.inv F st -> present st c m -> name_ok F c m -> call F d5 fuel x st c m d = (st', o) ->
+  LazyProofs.inv F st' /\ mono st st' /\ (forall t, o = Out t -> t = den F x c m d).
 Proof. exact call_den. Qed.
 Print Assumptions C14_call_state_independent.
 
-(* history independence, partial: whenever the family under test (any mode, any earlier history) and its
-   twin both answer the i-th operation, the answers are equal.  Full statement: LazyExamples.history_full. *)
+(* history independence, partial: whenever the family under test (any mode, any earlier history, with inheritance)
+   and its twin both answer the i-th operation, the answers are equal.  Full statement: LazyExamples.history_full. *)
 Theorem C14_history_partial : forall F F' d5 d5' fuel fuel' st st' h i t t',
-  same_shape F F' -> wf st -> wf st' ->
+  same_shape F F' -> selfref_unspec F -> LazyProofs.inv F st -> LazyProofs.inv F' st' ->
+  ok_hist F d5 fuel st h -> ok_hist F' d5' fuel' st' h ->
   nth_error (LazyModel.run F d5 fuel st h) i = Some (Out t) ->
   nth_error (LazyModel.run F' d5' fuel' st' h) i = Some (Out t') ->
   t = t'.
@@ -37,7 +50,7 @@ Print Assumptions C14_history_refuted.
 
 (* the first call terminates after fix D5: measure = 1 + pending stubs *)
 Theorem C14_first_call_terminates : forall F st c m d fuel,
-  slot_wf st -> no_cache_stub st -> resolved F st -> m_spec m = 0 ->
+  slot_wf st -> no_cache_stub st -> resolved F st -> m_spec m = 0 -> get_slot st c m <> None ->
   1 + pending st c m <= fuel ->
   dispatch F true fuel st c m d = dispatch F true (1 + pending st c m) st c m d /\
   snd (dispatch F true fuel st c m d) <> DOOF.
@@ -72,12 +85,13 @@ Example C14_dialect_first_agrees :
   LazyModel.run (F_dial true) true FUEL st0 h_dial = LazyModel.run (F_dial false) true FUEL st0 h_dial.
 Proof. exact dialect_first_agrees. Qed.
 
-Theorem C14_dialect_first_selfref_raises :
-  nth_error (LazyModel.run F_self true FUEL st0 [Define 0; Call 0 to_msgpack (Some 1) (V [(0, V [])])]) 1 = Some (Exc EAttrMeth) /\
-  nth_error (LazyModel.run F_self true FUEL st0 [Define 0; Call 0 to_msgpack None (V [(0, V [])]); Call 0 to_msgpack (Some 1) (V [(0, V [])])]) 2 =
+Example C14_dialect_first_selfref_agrees : forall byname,
+  nth_error (LazyModel.run (F_self byname) true FUEL st0 [Define 0; Call 0 to_msgpack (Some 1) (V [(0, V [])])]) 1 =
+    Some (Out (Node 0 (MN true 1 false 0) (Some 1) [Node 0 (MN true 1 false 0) (Some 1) []])) /\
+  nth_error (LazyModel.run (F_self byname) true FUEL st0
+               [Define 0; Call 0 to_msgpack None (V [(0, V [])]); Call 0 to_msgpack (Some 1) (V [(0, V [])])]) 2 =
     Some (Out (Node 0 (MN true 1 false 0) (Some 1) [Node 0 (MN true 1 false 0) (Some 1) []])).
-Proof. exact dialect_first_selfref_raises. Qed.
-Print Assumptions C14_dialect_first_selfref_raises.
+Proof. exact dialect_first_selfref_agrees. Qed.
 
 Theorem C14_build_cycle_diverges :
   nth_error (LazyModel.run (F_cyc false) true FUEL st0 h_cyc) 2 = Some (Exc EBuildCycle) /\
@@ -97,12 +111,38 @@ Proof.
 Qed.
 Print Assumptions C14_schedules_partial.
 
+(* several method slots, every thread running a sequence of calls over them (nested calls of one public call, or
+   several public calls): whatever the interleaving, every obtained result is the eager one *)
+Theorem C14_schedules_multi_slot_partial : forall (fn res: Type) (compile: nat -> fn) (apply: fn -> res)
+    nslots progs schedule t s r,
+  Forall (Forall (fun s => s < nslots)) progs ->
+  In t (snd (mrun fn res compile apply (minit fn res nslots progs) schedule)) -> In (s, r) (out fn res t) ->
+  r = apply (compile s).
+Proof. exact multi_slot_safe. Qed.
+Print Assumptions C14_schedules_multi_slot_partial.
+
+Example C14_multi_slot_nonvacuous :
+  (* two slots, two threads calling them in opposite orders, interleaved step by step *)
+  map (out nat nat) (snd (mrun nat nat (fun i => 10 * i) (fun f => f + 1) (minit nat nat 2 [[0; 1]; [1; 0]])
+                            [0; 1; 0; 1; 0; 1; 0; 1; 0; 1; 0; 1; 0; 1; 0; 1])) =
+  [[(0, 1); (1, 11)]; [(1, 11); (0, 1)]].
+Proof. vm_compute. reflexivity. Qed.
+
 (* non-vacuity *)
 Example C14_history_nonvacuous :
   let h := [Define 0; Define 1; Call 1 to_dict None (V [(0, V [])]); Call 1 from_dict None (V [])] in
   LazyModel.run (F_dial true) true 2 st0 h = LazyModel.run (F_dial false) true 2 st0 h /\
-  nth_error (LazyModel.run (F_dial true) true 2 st0 h) 2 = Some (Out (Node 1 to_dict None [Node 0 to_dict None []])).
+  nth_error (LazyModel.run (F_dial true) true 2 st0 h) 2 = Some (Out (Node 1 to_dict None [Node 0 to_dict None []])) /\
+  ok_hist (F_dial true) true 2 st0 h /\ ok_hist (F_dial false) true 2 st0 h.
 Proof. exact history_nonvacuous. Qed.
+
+(* inheritance in the model: reachable states keep the subclass' own method; a state without it runs the parent's *)
+Example C14_inheritance_nonvacuous :
+  nth_error (LazyModel.run F_inh true FUEL st0 h_inh) 3 =
+    Some (Out (Node 2 to_msgpack None [Node 1 (MN true 1 false 0) None [Node 0 (MN true 1 false 0) None []]])) /\
+  snd (call F_inh true FUEL (V [(0, V [])]) st_parent_only 1 (MN true 1 false 0) None) =
+    Out (Node 0 (MN true 1 false 0) None []).
+Proof. split; [exact inherited_lookup_reachable|exact (proj1 mro_fallback_runs_parent_code)]. Qed.
 
 Example C14_terminates_nonvacuous :
   pending (st_d5_a true) 0 to_dict = 1 /\
